@@ -175,6 +175,36 @@ func runBatchTwice(t *testing.T, sc *BatchSc) (x *batchExec, eff *BatchSc, br ba
 	return
 }
 
+// runBatchAgain runs the scenario, then runs the same node object once more - nothing is
+// reconfigured - with sc.Second's items (config fields of Second are ignored: they are the first
+// run's). It returns the observations of the second run and the scenario that describes it.
+func runBatchAgain(t *testing.T, sc *BatchSc) (x *batchExec, eff *BatchSc, br batchRun, fail string) {
+	second := *sc
+	second.N, second.Items, second.Sched = sc.Second.N, sc.Second.Items, sc.Second.Sched
+	second.PrepErr, second.PostErr, second.PostAct = 0, 0, sc.Second.PostAct
+	second.Cancel, second.DeadlineMs, second.LiveSlackMs, second.Barrier, second.Prefer = nil, 0, 0, 0, nil
+	second.Second = nil
+	if second.ExecAny || !(second.PrepForm == PFResults || second.PrepForm == PFResultsCN) {
+		items := append([]ItemScript(nil), second.Items...)
+		for i := range items {
+			items[i].PreErr = false
+		}
+		second.Items = items
+	}
+	eff = &second
+	fail = Bubble(t, func() {
+		x = newBatchExec(sc)
+		first := x.run()
+		if first.Panic != "" || first.Rejected {
+			br = first
+			return
+		}
+		x.rerun(eff)
+		br = x.run()
+	})
+	return
+}
+
 // forEachSchedule enumerates every release order of a gated scenario by replay-based DFS:
 // run with a schedule prefix, read how many parked callbacks were available at each step,
 // advance the prefix like a mixed-radix odometer. visit returns false to stop.
